@@ -12,7 +12,7 @@ import (
 // createReturnsContext: CreateOperationContext hands back the operation context it built on every path, also next to an error
 // list (the transports bind it before they ask for the error response).
 func createReturnsContext(c *Ctx) {
-	c.R.Rule("create-returns-context", "Executor.CreateOperationContext: no return has a nil first result (the operation context is returned next to every error list; transports bind it before DispatchError)", 3)
+	c.R.Rule("create-returns-context", "Executor.CreateOperationContext: no return has a nil first result (the operation context is returned next to every error list; transports bind it before DispatchError)", 1)
 	fn := c.fn(pkgExecutor, "*Executor.CreateOperationContext")
 	if fn == nil {
 		return
@@ -299,6 +299,69 @@ func rewriterRound3(c *Ctx) {
 		}
 	}
 	if n < 2 {
+		// the marking may live in one helper that the Mark*Copied functions share (markTypeDecls(name, accept)): the helper is
+		// judged against its own name parameter, and the Empty variant's accept literal must test NumFields() == 0
+		for _, h := range c.moduleFuncs(func(p string) bool { return p == pkgRewrite }) {
+			if h.Parent() != nil || (strings.HasPrefix(h.Name(), "Mark") && strings.HasSuffix(h.Name(), "Copied")) {
+				continue
+			}
+			var hName *ssa.Parameter
+			for _, p := range h.Params {
+				if p.Name() == "name" {
+					hName = p
+				}
+			}
+			if hName == nil {
+				continue
+			}
+			for _, b := range h.Blocks {
+				for _, in := range b.Instrs {
+					mu, ok := in.(*ssa.MapUpdate)
+					if !ok {
+						continue
+					}
+					fa, isF := loadAddr(an.Strip(mu.Map)).(*ssa.FieldAddr)
+					if !isF || fieldNameOf(fa) != "copied" {
+						continue
+					}
+					named := false
+					for _, f := range an.Facts(in) {
+						if f.Op == token.EQL && (an.Strip(f.X) == ssa.Value(hName) || an.Strip(f.Y) == ssa.Value(hName)) {
+							named = true
+						}
+					}
+					for _, site := range c.callSitesOf(h) {
+						caller := topFn(site.Parent())
+						if !(strings.HasPrefix(caller.Name(), "Mark") && strings.HasSuffix(caller.Name(), "Copied")) {
+							continue
+						}
+						n++
+						c.R.Check(named, caller.Name()+"/named", c.ipos(in), "only the declaration called name (tested in "+h.Name()+")", caller.Name()+" marks, through "+h.Name()+", declarations whose name was not compared equal to the name asked for: every other type declaration of the user's file is silently dropped from the regenerated file")
+						if strings.Contains(caller.Name(), "Empty") {
+							empty := false
+							for _, cl := range an.WithClosures(caller) {
+								for _, b2 := range cl.Blocks {
+									for _, i2 := range b2.Instrs {
+										bo, ok := i2.(*ssa.BinOp)
+										if !ok || bo.Op != token.EQL {
+											continue
+										}
+										if k, isC := an.ConstInt(bo.Y); isC && k == 0 {
+											if call, isCall := an.Strip(bo.X).(*ssa.Call); isCall && strings.HasSuffix(an.CalleeOf(call).FullName(), "NumFields") {
+												empty = true
+											}
+										}
+									}
+								}
+							}
+							c.R.Check(empty, caller.Name()+"/empty", c.pos(caller.Pos()), "accepts only a struct without fields", caller.Name()+" marks the struct without having found it empty: a root type the user added fields to is dropped instead of being preserved")
+						}
+					}
+				}
+			}
+		}
+	}
+	if n < 2 {
 		c.R.Fail("marks-only-the-named: only %d stores into Rewriter.copied found in Mark*Copied", n)
 	}
 	// (b) RemainingSource walks every declaration and leaves out exactly the copied ones and the import block
@@ -556,6 +619,29 @@ func c20Round3(c *Ctx, plugin bool) {
 	}
 	if !plugin {
 		return
+	}
+	// (f) a flag that one entity sets for the whole plugin is only ever set, never overwritten with one entity's answer
+	c.R.Rule("plugin-flag-only-set", "plugin/federation: the plugin-wide field usesRequires is only ever assigned the constant true (assigning one entity's `len(Requires) > 0` lets the entity that happens to be visited last, in map order, decide for all)", 1)
+	k := 0
+	for _, fn := range c.moduleFuncs(func(p string) bool { return p == modPath("plugin/federation") }) {
+		for _, b := range fn.Blocks {
+			for _, in := range b.Instrs {
+				st, ok := in.(*ssa.Store)
+				if !ok {
+					continue
+				}
+				fa, ok := st.Addr.(*ssa.FieldAddr)
+				if !ok || fieldNameOf(fa) != "usesRequires" {
+					continue
+				}
+				k++
+				kc, isC := st.Val.(*ssa.Const)
+				c.R.Check(isC && kc.Value != nil && kc.Value.String() == "true", c.fnKey(fn)+"/usesRequires", c.ipos(in), "set to true", "usesRequires is assigned a per-entity value: whether resolvers get their federationRequires argument depends on which entity the map iteration visits last — two runs over the same schema generate different code")
+			}
+		}
+	}
+	if k == 0 {
+		c.R.Fail("plugin-flag-only-set: no store to usesRequires found in plugin/federation")
 	}
 	// (c) `usesRequires` style flags of the federation plugin: a length is compared with 0
 	c.R.Rule("requires-compared-with-zero", "plugin/federation: len(x.Requires) is compared with 0 only", 1)
